@@ -237,6 +237,33 @@ def run(repo: Repo, rep: Report, tier: str) -> None:
                         if isinstance(n, ast.Call) and isinstance(n.func, ast.Attribute) and isinstance(n.func.value, ast.Name) and n.func.value.id == name and n.func.attr in ("append", "add", "update", "pop", "clear", "setdefault"):
                             if name not in f.params and not any(isinstance(x, ast.Assign) and any(isinstance(t, ast.Name) and t.id == name for t in x.targets) for x in walk_local(f.node)):
                                 mut_globals.append((f, n, name))
+    # class-level mutables (assigned in the class body, never re-bound per instance) are process-global state as well
+    for m in repo.modules.values():
+        if ".src." not in m.name:
+            continue
+        for k in m.classes.values():
+            shared = {}
+            for st in k.node.body:
+                tgt, val = None, None
+                if isinstance(st, ast.Assign) and len(st.targets) == 1 and isinstance(st.targets[0], ast.Name):
+                    tgt, val = st.targets[0].id, st.value
+                elif isinstance(st, ast.AnnAssign) and isinstance(st.target, ast.Name) and st.value is not None and "ClassVar" not in norm(st.annotation) or False:
+                    tgt, val = (st.target.id, st.value) if isinstance(st, ast.AnnAssign) else (None, None)
+                if tgt and (isinstance(val, (ast.Dict, ast.List, ast.Set)) or (isinstance(val, ast.Call) and call_name(val) in ("dict", "list", "set", "defaultdict"))):
+                    shared[tgt] = st
+            if not shared or any(isinstance(d, ast.Name) and d.id == "dataclass" or (isinstance(d, ast.Call) and call_name(d) == "dataclass") for d in k.node.decorator_list):
+                continue
+            rebound = {n.attr for mm in k.methods.values() for n in walk_local(mm.node) if isinstance(n, ast.Attribute) and isinstance(n.ctx, ast.Store) and isinstance(n.value, ast.Name) and n.value.id == "self"}
+            for mm in k.methods.values():
+                for n in walk_local(mm.node):
+                    hit = None
+                    if isinstance(n, ast.Subscript) and isinstance(n.ctx, ast.Store) and isinstance(n.value, ast.Attribute) and isinstance(n.value.value, ast.Name) and n.value.value.id in ("self", "cls", k.name) and n.value.attr in shared:
+                        hit = n.value.attr
+                    if isinstance(n, ast.Call) and isinstance(n.func, ast.Attribute) and n.func.attr in ("append", "add", "update", "pop", "clear", "setdefault", "extend") and isinstance(n.func.value, ast.Attribute) \
+                            and isinstance(n.func.value.value, ast.Name) and n.func.value.value.id in ("self", "cls", k.name) and n.func.value.attr in shared:
+                        hit = n.func.value.attr
+                    if hit and hit not in rebound:
+                        mut_globals.append((mm, n, f"{k.name}.{hit} (class attribute)"))
     for f, n, name in mut_globals:
         rep.bad("C19-R3", f"{f.short} mutates module-level `{name}`", "module-level mutable state survives across compilations", f.loc(n))
     rep.ok("C19-R3", "no module-level mutable is mutated by compiler functions", f"{len(mut_globals)} mutation sites", "", nontrivial=False) if not mut_globals else None
